@@ -18,10 +18,13 @@ ASSUMPTIONS = ["before the upload the remote directory equals the previously upl
                "file names are SYMBOLIC: which old name equals which new name (swaps, chains, reuse of a removed name by a "
                "renamed or added file) is decided by the solver"]
 OUTSIDE = ["directories with more than one file or nested directories, added directories, symlinks, kind changes, executable "
-           "bits, full uploads", "entries renamed FROM an upload-ignored name (never uploaded, so there is nothing to rename "
-           "remotely), ignore patterns that match a file inside a directory but not the directory", "the temporary "
+           "bits, full uploads", "entries renamed FROM an upload-ignored name are the input class of known finding "
+           "C43-renamed-from-ignored-name (excluded from the main run, re-witnessed on every run)", "ignore patterns that match a file inside a directory but not the directory", "the temporary "
            "names of the two-stage rename colliding with real files (assumed unique, as the code says)",
            "more files than the bound"]
+
+
+K_FROM_IGNORED = "C43-renamed-from-ignored-name"
 
 
 def ob_upload(cx):
@@ -64,8 +67,8 @@ def ob_upload(cx):
         raise AssertionError("unexpected path %r" % (path,))
     for f in files:
         if f["shape"].startswith("renamed"):
-            # outside: an entry renamed FROM an ignored name (it was never uploaded, there is nothing to rename remotely)
-            cx.assume(not ignored(f["old"]))
+            # known finding: an entry renamed FROM an ignored name was never uploaded, rename_remote fails with NoSuchFile
+            cx.known(K_FROM_IGNORED, ignored(f["old"]))
 
     def old_text(f):
         return b"old-%d" % f["i"]
@@ -272,8 +275,8 @@ def obligations(tier):
     p = dict(nfiles=2 if q else 3)
     return [Ob("incremental_upload", ob_upload, [UP], p, 900 if q else 7200, 2 if q else 1,
                ["rename_chain_or_swap", "name_reused", "renamed_and_modified", "directory_replaced_by_file",
-                "modified_inside_renamed_directory", "renamed_to_ignored_name"],
+                "modified_inside_renamed_directory", "renamed_to_ignored_name"], known=[K_FROM_IGNORED],
                bounds="<= %(nfiles)d entries (file unchanged / modified / removed / added / renamed / renamed and modified; directory with one "
                       "file removed / renamed / renamed with the file inside modified) with symbolic "
                       "one-letter names over 4 letters: every pattern of coinciding old and new names; each name upload-ignored or not "
-                      "(symbolic), except that a renamed entry's old name is not ignored" % p)]
+                      "(symbolic); a renamed entry whose old name is ignored is the class of a known finding" % p)]
